@@ -95,14 +95,22 @@ def cluster_real(X, f, mx, phi, t):
     import copy
     import zlib
 
-    mode = zlib.crc32(np.ascontiguousarray(X).tobytes()) % 3
-    if mode and len(inds) >= 2:
+    mode = zlib.crc32(np.ascontiguousarray(X).tobytes()) % 4
+    if mode in (1, 3) and len(inds) >= 2:
         for i in range(1, len(inds)):
             src = inds[(i - 1) // 2]
-            c = src.clone() if mode == 1 else (copy.copy(src) if i % 2 else copy.deepcopy(src))
+            c = src.clone() if mode == 1 else (copy.copy(src) if i % 2 else copy.deepcopy(src))  # mode 3: copies
             c.genome = X[i].copy()
             c.fitness = float(f[i])
             inds[i] = c
+    if mode == 2 and len(inds) >= 4:
+        # the same Individual objects were clustered before, in another population (the survivors of an earlier
+        # generation): nothing of that may stick to them
+        half = [inds[i] for i in range(0, len(inds), 2)]
+        try:
+            NearestBetterClustering(half, phi, 1.0).cluster()
+        except Exception:  # noqa: BLE001 (the earlier clustering is only there to leave traces)
+            pass
     nbc = NearestBetterClustering(inds, phi, t)
     seeds = nbc.cluster()
     ids = {id(ind): i for i, ind in enumerate(inds)}
@@ -231,8 +239,9 @@ def _shared_worker(seed):
     rng = np.random.default_rng([seed, 77])
     phi = float(rng.choice([1.0, 2.0, 3.0]))
     tf = float(rng.choice([0.7, 1.0]))
+    LIMIT = [4, 2, 1, 4][seed % 4]
     sprout = {"kind": "custom", "generator": "nbc", "gen_dist_factor": phi, "trunc_factor": tf, "deme_filters": ["demelimit"], "far_enough": 0.1,
-              "fil_dist_factor": 1.0, "norm_ord": 2, "check_only_active": False, "deme_limit": 2, "tree_filters": ["levellimit"], "level_limit": 4}
+              "fil_dist_factor": 1.0, "norm_ord": 2, "check_only_active": False, "deme_limit": 2, "tree_filters": ["levellimit"], "level_limit": LIMIT}
     eng = {0: ["sea", "de", "shade", "ga"], 1: ["sea", "de", "cma"], 2: ["sea", "de"]}
     specs = [R2.rand_spec(rng, nlev=int(rng.choice([2, 2, 3])), engines=eng, sprout=sprout, objective=str(rng.choice(["four", "sphere", "penalty"])),
                           gsc={"kind": "MetaepochLimit", "limit": 6}, hibernation=bool(rng.random() < 0.5), cutoff=None) for _ in range(2)]
@@ -278,6 +287,7 @@ def _shared_worker(seed):
             return out
 
     found7 = []
+    found8 = []
     try:
         with run_limit():
             trees = []
@@ -295,11 +305,15 @@ def _shared_worker(seed):
                 for t in trees:
                     if not t._gsc(t):
                         t.run_step()
+                        for lv in range(1, len(t.levels)):
+                            act = sum(1 for d in t.levels[lv] if d.is_active)
+                            if act > LIMIT and not found8:
+                                found8.append(f"metaepoch {t.metaepoch_count}: level {lv} of one of the two trees has {act} active demes, the level limit of the shared mechanism is {LIMIT}")
     except RunTimeout as e:
         return {"status": "crash", "detail": f"run did not terminate: {e}"}
     except Exception as e:  # noqa: BLE001
         return {"status": "env" if is_env_crash(e) else "crash", "detail": f"{type(e).__name__}: {e}"}
-    return {"status": "ok", "found": found, "found7": found7, "calls": calls[0]}
+    return {"status": "ok", "found": found, "found7": found7, "found8": found8, "calls": calls[0]}
 
 
 def shared_generator(ctx, n, salt, only="C15/"):
@@ -322,6 +336,8 @@ def shared_generator(ctx, n, salt, only="C15/"):
         sl.count("generator-answers-checked", r["calls"])
         for m in r["found"]:
             sl.violations.append({"signature": "C15/answer-for-another-population", "detail": m, "replay": {"seed": sd}})
+        for m in r.get("found8", []):
+            sl.violations.append({"signature": "C08/level-limit-exceeded(shared mechanism)", "detail": m, "replay": {"seed": sd}})
         for m in r.get("found7", []):
             sl.violations.append({"signature": "C07/seed-not-from-the-parents-population(shared mechanism)", "detail": m, "replay": {"seed": sd}})
     if seeds:
